@@ -396,7 +396,9 @@ pub struct Agreement {
 }
 
 /// Declarations that have no kinding solution, to be appended to an accepted program.
-pub const ILL_KINDED: [(&str, &str); 19] = [
+pub const ILL_KINDED: [(&str, &str); 21] = [
+    ("reference-alias-cycle", "let @zz21 = @zz22; let @zz22 = @zz21;"),
+    ("reference-self-alias", "let @zz23 = @zz23;"),
     ("rec-alias", "let zz18 = rec zzr zzr;"),
     ("rec-alias-parenthesised", "let zz19 = rec zzr (zzr);"),
     ("rec-alias-nested", "let zz20 = rec zzr (rec zzs zzr);"),
